@@ -489,7 +489,7 @@ fn search_interrupt(args: &[String]) -> i32 {
 // ------------------------------------------------------------------------------------------------ C03
 fn bestmove(args: &[String]) -> i32 {
     let seed = seed_arg(args);
-    let mut rep = Report::new("bestmove", &format!("corpus positions (seed {}) x node limits {{0,1,2,3,5,17,200}} x depth {{2,3,64}}, plus unlimited depth 1..2 where the position has <= 12 men and no pawn about to promote; one searcher reused across all positions", seed));
+    let mut rep = Report::new("bestmove", &format!("corpus positions (seed {}) x node limits {{0,1,2,3,5,17,200}} x depth {{2,3,64}}, plus unlimited depth 1..2 where the position has <= 12 men and no pawn about to promote; one searcher reused across all positions; + 18 starts with a castling or en-passant move in reach: depth-4 search, then depth 1..2 on every special-move neighbour of every node within two plies, same searcher", seed));
     let walks = num_arg(args, "walks", 60);
     let mut s = Searcher::new();
     for p in corpus(seed, walks, 30).iter() {
@@ -516,6 +516,70 @@ fn bestmove(args: &[String]) -> i32 {
         }
         rep.distinct += 1;
         if rep.distinct % 50 == 1 { rep.sample(jstr(&fen)); }
+    }
+    // "whatever it searched earlier in the same process": positions that differ from a node of an earlier search only by the
+    // secondary effect of a special move (the castling rook back in its corner, the pawn taken en passant back on its square).
+    // One searcher per start: search the start to depth 4, then ask for a move in every such neighbour of every node within two
+    // plies whose path contains the special move; the answer must be legal there.
+    let special_starts = ["r3k2r/8/8/8/8/8/8/R3K2R w KQkq - 0 1", "r3k2r/8/8/8/8/8/8/R3K2R b KQkq - 0 1", "4k3/8/8/8/8/8/PPP2PPP/R3K2R w KQ - 0 1",
+        "r3k2r/ppp2ppp/8/8/8/8/8/4K3 b kq - 0 1", "6k1/5ppp/8/8/8/8/8/R3K3 w Q - 0 1", "8/8/8/8/8/8/6k1/4K2R w K - 0 1", "4k2r/6K1/8/8/8/8/8/8 b k - 0 1",
+        "2k5/8/8/8/8/2b5/7P/4K2R w K - 0 1", "r3k3/p7/5B2/8/8/8/8/3K4 b q - 0 1", "6rk/6pp/8/8/8/1B6/8/4K2R w K - 0 1", "r3k3/8/1b6/8/8/8/PP6/KR6 b q - 0 1",
+        "4k3/8/8/8/3pP3/8/8/4K3 b - e3 0 1", "4k3/8/8/8/1p6/8/P7/4K3 w - - 0 1", "4k3/p7/8/1P6/8/8/8/4K3 b - - 0 1",
+        // the castled rook's own move is the principal variation (back-rank mates), all four castles
+        "7k/p6p/7P/8/8/1B6/8/4K2R w K - 0 1", "k7/p6p/P7/8/8/6B1/8/R3K3 w Q - 0 1", "4k2r/8/1b6/8/8/7p/P6P/7K b k - 0 1", "r3k3/8/6b1/8/8/p7/P6P/K7 b q - 0 1"];
+    for f in special_starts {
+        let Some(p0) = parse_fen(f) else { continue };
+        if !valid(&p0) { continue; }
+        let mut s = Searcher::new();
+        let _ = s.find_best_move(&eng_board(&p0), 4, None);
+        rep.evals += 1;
+        // nodes within two plies, with the aliases their path gives rise to
+        let mut frontier: Vec<(RPos, Vec<(usize, usize, Col, Pc)>)> = vec![(p0.clone(), Vec::new())];   // (position, [(restore square, clear square, colour, piece)])
+        let mut aliases: Vec<(RPos, String)> = Vec::new();
+        for _ply in 0..2 {
+            let mut next = Vec::new();
+            for (p, fix) in frontier.iter() {
+                for m in legal_moves(p) {
+                    let q = apply(p, m);
+                    let mut fx = fix.clone();
+                    let (fr, to) = (m.from as usize, m.to as usize);
+                    if let Some((c, Pc::K)) = p.sq[fr] {
+                        if (fr as i32 - to as i32).abs() == 2 {
+                            let (corner, landed) = if to > fr { (fr + 3, fr + 1) } else { (fr - 4, fr - 1) };
+                            fx.push((corner, landed, c, Pc::R));
+                        }
+                    }
+                    if let Some((c, Pc::P)) = p.sq[fr] {
+                        if Some(m.to) == p.ep && fr % 8 != to % 8 { let cap = if c == Col::W { to - 8 } else { to + 8 }; fx.push((cap, cap, c.other(), Pc::P)); }
+                    }
+                    for (restore, clear, c, pc) in fx.iter() {
+                        let mut a = q.clone();
+                        if *clear != *restore { if a.sq[*clear] != Some((*c, *pc)) { continue; } a.sq[*clear] = None; }
+                        if a.sq[*restore].is_some() { continue; }
+                        a.sq[*restore] = Some((*c, *pc));
+                        a.ep = None;
+                        if valid(&a) { aliases.push((a, format!("{} then {}", f, m.uci()))); }
+                    }
+                    next.push((q, fx));
+                }
+            }
+            frontier = next;
+        }
+        for (a, how) in aliases.iter() {
+            let legal: BTreeSet<String> = legal_moves(a).iter().map(|m| m.uci()).collect();
+            let board = eng_board(a);
+            for depth in [1u8, 2] {
+                let r = s.find_best_move(&board, depth, None);
+                rep.evals += 1;
+                let ok = match r.1 { Some(m) => legal.contains(&m.to_algebraic()), None => legal.is_empty() };
+                if !ok {
+                    rep.violation = Some(format!("{{\"input\": {{\"searched_before_with_the_same_searcher\": {{\"fen\": {}, \"depth\": 4}}, \"fen\": {}, \"depth\": {}, \"neighbour_of_node_after\": {}}}, \"real\": {{\"bestmove\": {}}}, \"expected\": \"a legal move iff one exists\"}}",
+                        jstr(f), jstr(&to_fen(a)), depth, jstr(how), jstr(&r.1.map(|m| m.to_algebraic()).unwrap_or("0000".into()))));
+                    return rep.finish();
+                }
+            }
+        }
+        rep.distinct += 1;
     }
     rep.finish()
 }
@@ -699,8 +763,9 @@ fn game_history(args: &[String]) -> i32 {
     let seed = seed_arg(args);
     let games = num_arg(args, "games", 60);
     let plies = num_arg(args, "plies", 24);
-    let mut rep = Report::new("game-history", &format!("{} pseudo-random legal games of <= {} plies (seed {}), every prefix, every successor of the final position", games, plies, seed));
+    let mut rep = Report::new("game-history", &format!("{} pseudo-random legal games of <= {} plies (seed {}), every prefix, every successor of the final position; + 8 lopsided positions x <= 3 four-ply shuffle cycles x 0..=10 plies, depth-1 search through the real path against the bare set-up", games, plies, seed));
     let mut fl = Flounder::new();
+    let mut uninterpreted = 0usize;
     for (start, ms) in random_games(seed, games, plies) {
         let fen = to_fen(&start);
         for (round, n) in [ms.len(), ms.len() / 2, ms.len(), ms.len() / 3].into_iter().enumerate() {
@@ -714,14 +779,14 @@ fn game_history(args: &[String]) -> i32 {
             let mut seen: Vec<String> = Vec::new();
             let mut p = start.clone();
             for m in &ms[..n] { seen.push(ref_pos_string(&p)); p = apply(&p, *m); }
+            // where the history is kept is the engine's business: either the command records the positions before the current one
+            // and the search pushes its root (length n), or the command records the current one too (length n + 1); any other
+            // length cannot be interpreted here and is left to the through-the-search family below
             let len = fl.verif_searcher().verif_repetition_len();
-            if len != n {
-                rep.violation = Some(format!("{{\"input\": {{\"cmd\": {}}}, \"real\": {{\"game_history_len\": {}}}, \"expected\": {{\"game_history_len\": {}}}}}", jstr(&cmd), len, n));
-                return rep.finish();
-            }
+            if len != n && len != n + 1 { uninterpreted += 1; continue; }
             let cur = fl.verif_board().clone();
             seen.push(ref_pos_string(&p));
-            fl.verif_searcher().verif_push_position(&cur);
+            if len == n { fl.verif_searcher().verif_push_position(&cur); }
             for m in legal_moves(&p) {
                 let succ = apply(&p, m);
                 let occ = seen.iter().filter(|s| **s == ref_pos_string(&succ)).count();
@@ -737,6 +802,75 @@ fn game_history(args: &[String]) -> i32 {
         rep.distinct += 1;
         if rep.distinct % 20 == 1 { rep.sample(jstr(&fen)); }
     }
+    // Through the real search path (no emulated root push, no assumption about where the history is kept): a depth-1 search
+    // after `position fen F moves L` against a depth-1 search of the same position set up bare. At depth 1 the game history
+    // can matter only through the repetition test of the root's successors, so by the property
+    //   no successor with two earlier occurrences  =>  same score as the bare set-up;
+    //   some such successor and the bare score < 0  =>  score exactly 0 and the chosen move is one of them.
+    let lopsided = ["6k1/5ppp/8/8/8/8/q7/6K1 w - - 0 1", "6k1/Q7/8/8/8/8/5PPP/6K1 b - - 0 1", "7k/6pp/8/8/3n4/8/r7/5K2 w - - 0 1",
+        "5k2/R7/8/3N4/8/8/6PP/7K b - - 0 1", "8/8/8/4k3/8/8/3RK3/8 b - - 0 1", "4k3/8/8/8/8/2n5/8/R3K3 b - - 0 1",
+        "r3k3/8/8/8/8/8/2N5/4K3 w - - 0 1", "6k1/5ppp/8/8/8/8/q7/6K1 b - - 0 1"];
+    let quiet_piece = |p: &RPos, m: &RMove| p.sq[m.to as usize].is_none() && m.promo.is_none() && matches!(p.sq[m.from as usize], Some((_, pc)) if pc != Pc::P)
+        && !(matches!(p.sq[m.from as usize], Some((_, Pc::K))) && (m.from as i32 - m.to as i32).abs() == 2);
+    for f in lopsided {
+        let Some(p0) = parse_fen(f) else { continue };
+        let mut cycles: Vec<[RMove; 4]> = Vec::new();
+        'find: for m1 in legal_moves(&p0).into_iter().filter(|m| quiet_piece(&p0, m)) {
+            let p1 = apply(&p0, m1);
+            for m2 in legal_moves(&p1).into_iter().filter(|m| quiet_piece(&p1, m)) {
+                let p2 = apply(&p1, m2);
+                let m3 = RMove { from: m1.to, to: m1.from, promo: None };
+                if !legal_moves(&p2).contains(&m3) { continue; }
+                let p3 = apply(&p2, m3);
+                let m4 = RMove { from: m2.to, to: m2.from, promo: None };
+                if !legal_moves(&p3).contains(&m4) { continue; }
+                if ref_pos_string(&apply(&p3, m4)) != ref_pos_string(&p0) { continue; }
+                cycles.push([m1, m2, m3, m4]);
+                if cycles.len() >= 3 { break 'find; }
+                break;
+            }
+        }
+        for cyc in cycles {
+            for n in 0..=10usize {
+                let ms: Vec<RMove> = (0..n).map(|i| cyc[i % 4]).collect();
+                let mut seen: Vec<String> = Vec::new();
+                let mut p = p0.clone();
+                for m in &ms { seen.push(ref_pos_string(&p)); p = apply(&p, *m); }
+                seen.push(ref_pos_string(&p));
+                let lm = legal_moves(&p);
+                if lm.is_empty() { continue; }
+                let reps: Vec<String> = lm.iter().filter(|m| { let s = ref_pos_string(&apply(&p, **m)); seen.iter().filter(|x| **x == s).count() >= 2 }).map(|m| m.uci()).collect();
+                let list: Vec<String> = ms.iter().map(|m| m.uci()).collect();
+                let cmd = if list.is_empty() { format!("position fen {}", f) } else { format!("position fen {} moves {}", f, list.join(" ")) };
+                let mut b = Flounder::new();
+                let bare = format!("position fen {}", to_fen(&p));
+                b.verif_handle_command(&bare);
+                let bb = b.verif_board().clone();
+                let (sb, _) = b.verif_searcher().find_best_move(&bb, 1, None);
+                for earlier in [false, true] {
+                let mut a = Flounder::new();
+                // an earlier, longer game through the same positions must not leak into this one's history
+                let first = format!("position fen {} moves {}", f, (0..10).map(|i| cyc[i % 4].uci()).collect::<Vec<_>>().join(" "));
+                if earlier { a.verif_handle_command(&first); }
+                a.verif_handle_command(&cmd);
+                let ba = a.verif_board().clone();
+                let (sa, ma) = a.verif_searcher().find_best_move(&ba, 1, None);
+                rep.evals += 1;
+                let mv = ma.map(|m| m.to_algebraic()).unwrap_or_default();
+                let bad = if reps.is_empty() { sa != sb } else if sb < 0 { sa != 0 || !reps.contains(&mv) } else { sa < 0 || sa > sb };
+                if bad {
+                    let want = if reps.is_empty() { format!("\"no successor has two earlier occurrences: score {} as for the bare position\"", sb) }
+                        else { format!("{{\"successors_with_two_earlier_occurrences\": {:?}, \"bare_depth1_score\": {}, \"score\": \"0 by one of them when the bare score is negative, else within [0, bare]\"}}", reps, sb) };
+                    let cmds = if earlier { format!("[{}, {}]", jstr(&first), jstr(&cmd)) } else { format!("[{}]", jstr(&cmd)) };
+                    rep.violation = Some(format!("{{\"input\": {{\"cmds\": {}, \"then\": \"depth-1 search\"}}, \"real\": {{\"score\": {}, \"move\": {}}}, \"expected\": {}}}", cmds, sa, jstr(&mv), want));
+                    return rep.finish();
+                }
+                }
+            }
+            rep.distinct += 1;
+        }
+    }
+    if uninterpreted > 0 { rep.sample(jstr(&format!("{} command(s) left a history length that is neither n nor n + 1: successor family skipped there", uninterpreted))); }
     rep.finish()
 }
 
@@ -1030,7 +1164,10 @@ fn newgame_cmd(args: &[String]) -> i32 {
     let n = num_arg(args, "positions", 12);
     let maxd = num_arg(args, "depth", 3) as u8;
     let mut rep = Report::new("newgame", &format!("{} corpus positions (seed {}) x depth 1..{}: two engine instances with independent key draws agree on (score, move, nodes); an engine that played another game and received ucinewgame agrees with a fresh one", n, seed, maxd));
-    let positions: Vec<RPos> = corpus(seed, 30, 20).into_iter().filter(|p| p.sq.iter().filter(|x| x.is_some()).count() <= 14 && !legal_moves(p).is_empty()).take(n).collect();
+    // the first 8 as before; beyond them only positions whose quiescence trees stay small (<= 10 men, no pawn about to promote)
+    let small = |p: &RPos| p.sq.iter().filter(|x| x.is_some()).count() <= 10 && !(8..16).any(|i| p.sq[i] == Some((Col::B, Pc::P))) && !(48..56).any(|i| p.sq[i] == Some((Col::W, Pc::P)));
+    let positions: Vec<RPos> = corpus(seed, 30, 20).into_iter().filter(|p| p.sq.iter().filter(|x| x.is_some()).count() <= 14 && !legal_moves(p).is_empty())
+        .enumerate().filter(|(i, p)| *i < 8 || small(p)).map(|(_, p)| p).take(n).collect();
     // an engine with a past: a game, searches that filled every table, then ucinewgame
     let mut used = Flounder::new();
     used.verif_handle_command("position startpos moves e2e4 e7e5 g1f3 b8c6 f1c4 g8f6");
